@@ -32,6 +32,10 @@ class Module:
         self.lines = src.splitlines()
         self.tree = ast.parse(src, filename=str(path))
         self.renamed = []
+        self.canon = {}
+        if not os.environ.get("MOKAPOT_NO_CANON"):
+            from .canon import canonicalise
+            self.canon = canonicalise(self.tree)
         if not os.environ.get("MOKAPOT_NO_REFNAMES"):
             from .refnames import load_ref, normalise_module
             global _REF
@@ -153,6 +157,11 @@ class Program:
         self.stats["modules"] = len(self.modules)
         self.stats["functions_alpha_normalised"] = sum(
             len(m.renamed) for m in self.modules.values())
+        tot = {}
+        for m in self.modules.values():
+            for k, v in m.canon.items():
+                tot[k] = tot.get(k, 0) + v
+        self.stats["canonicalisations"] = tot
         for mod in self.modules.values():
             self._index_imports(mod)
         for mod in self.modules.values():
